@@ -53,6 +53,10 @@ func c16(r *core.Run) {
 	c16QueryValueReadOnly(r, "O3", "store/badgerstore")
 	r.Rule("H1", "hand-over to the next run: in the stop sequence every write of a per-run field (connection, in-channel, registry, work queue) comes before the atomic store of the stopped state - that store is what publishes the fields to a Serve that wins the stopped->starting CAS on another goroutine; a write after it races with the new run's initialisation and can wipe the new connection", 2)
 	c16ReleaseBeforeStopped(r, "H1", a, p.FuncsOfPkg(""))
+	r.Rule("G2", "group-confined state stays confined (shared with C01.F4 / C06.R2): the group evaluator falls back on the resource name only for the nil group, so a configured group is honoured on every pattern (also the root pattern, which has no tokens) and all members of a group share one worker", 1)
+	if ro := resolveMuxRolesFor(r, "G2"); ro != nil {
+		c06DefaultGroupOnlyWithoutGroup(r, "G2", ro)
+	}
 	r.Rule("L3", "no close racing with a delivery (shared with C15.L2): the channel a query-event subscription delivers into is closed, if at all, only after that subscription was removed synchronously - Drain returns before the connection's read loop has stopped sending into the channel, so a close after Drain races with that send (race detector) and can panic", 1)
 	c15CloseAfterUnsubscribe(r, "L3")
 	r.Rule("H2", "hand-over from serve to the producers (shared with C03.S5): serve initialises the queue state without the mutex and then publishes the started state with an atomic store; enqueue (With, WithResource, WithGroup, requests) touches that state only after an atomic load has seen started - that load/store pair is the only thing ordering serve's unlocked writes before a producer's first access", 1)
